@@ -2195,10 +2195,21 @@ def spacelike_to(v, force_oriented=False):
         raise GeometryError( "Cannot find isometry taking a"
         " spacelike vector to a non-spacelike vector.")
 
-    # each vector is a one-row frame of its own (so arrays of
-    # vectors give arrays of isometries)
+    # complete v to a frame (v, t) with t timelike: t is the component
+    # of the first standard basis vector orthogonal to v, whose norm
+    # is -1 - v_0^2 / <v, v> < 0. The complement of this frame is
+    # positive definite, so find_isometry can orthogonalize it
+    # safely. (The complement of v alone is indefinite, and
+    # Gram-Schmidt breaks down when the kernel basis it starts from
+    # contains a lightlike vector, e.g. for v = (0, 1, 1).)
+    origin = np.zeros_like(normed)
+    origin[..., 0] = 1
+    timelike_vec = origin - utils.projection(origin, normed, minkowski(dim))
+
+    # each pair of vectors is a two-row frame of its own (so arrays
+    # of vectors give arrays of isometries)
     iso = utils.find_isometry(minkowski(dim),
-                              np.expand_dims(normed, axis=-2))
+                              np.stack([normed, timelike_vec], axis=-2))
 
     #find the index of the timelike basis vector
     lengths = np.expand_dims(utils.normsq(iso, minkowski(dim)), axis=-1)
